@@ -33,6 +33,8 @@ MUTS = [
  ("M13", "HARMLESS: _seen_fragments rebinding repaired", CF, "    _seen_fragments = _seen_fragments or set()\n    grouped_fields = OrderedDict()  # type: GroupedFields\n\n    for selection in selections:\n        if isinstance(selection, ast.Field):\n            if _skip_selection(selection, variables):\n                continue\n\n            key = selection.response_name\n\n            if key not in grouped_fields:\n                grouped_fields[key] = []\n\n            grouped_fields[key].append(selection)\n\n        elif isinstance(selection, ast.InlineFragment):\n            if _skip_selection(\n                selection, variables\n            ) or not _fragment_type_applies(schema", "    _seen_fragments = set() if _seen_fragments is None else _seen_fragments\n    grouped_fields = OrderedDict()  # type: GroupedFields\n\n    for selection in selections:\n        if isinstance(selection, ast.Field):\n            if _skip_selection(selection, variables):\n                continue\n\n            key = selection.response_name\n\n            if key not in grouped_fields:\n                grouped_fields[key] = []\n\n            grouped_fields[key].append(selection)\n\n        elif isinstance(selection, ast.InlineFragment):\n            if _skip_selection(\n                selection, variables\n            ) or not _fragment_type_applies(schema"),
  ("M14", "argument cache keyed by node only (stale arguments across implementing types)", "src/py_gql/execution/wrappers.py", "        cache_key = field_definition, node\n", "        cache_key = node\n"),
  ("S1", "seeded class: fragment marked visited BEFORE the spread's @skip/@include is evaluated", CF, "            if (\n                _skip_selection(selection, variables)\n                or name in _seen_fragments\n                or not _fragment_type_applies(schema, object_type, fragment)\n            ):\n                continue\n", "            if name in _seen_fragments:\n                continue\n            _seen_fragments.add(name)\n            if (\n                _skip_selection(selection, variables)\n                or not _fragment_type_applies(schema, object_type, fragment)\n            ):\n                continue\n"),
+ ("S5", "seeded class: KnownFragmentNamesChecker keeps a CLASS-level set that only grows", "src/py_gql/validation/rules/__init__.py", "    def enter_document(self, node):\n        self._fragment_names = set(\n            [\n                definition.name.value\n                for definition in node.definitions\n                if type(definition) == _ast.FragmentDefinition\n            ]\n        )\n\n    def enter_fragment_spread(self, node):\n        name = node.name.value\n        if name not in self._fragment_names:", "    _fragment_names = set()  # type: ignore\n\n    def enter_document(self, node):\n        self._fragment_names.update(\n            [\n                definition.name.value\n                for definition in node.definitions\n                if type(definition) == _ast.FragmentDefinition\n            ]\n        )\n\n    def enter_fragment_spread(self, node):\n        name = node.name.value\n        if name not in self._fragment_names:"),
+ ("S4", "seeded class: default_resolver falls through to getattr for a Mapping parent lacking the key", "src/py_gql/execution/default_resolver.py", "    if __isinstance(root, __mapping_cls):\n        return root.get(info.field_definition.python_name, None)\n", "    if __isinstance(root, __mapping_cls) and info.field_definition.python_name in root:\n        return root[info.field_definition.python_name]\n"),
  ("S3", "seeded class: _find_conflict tests isinstance(parent_1, ObjectType) twice", "src/py_gql/validation/rules/overlapping_fields_can_be_merged.py", "        and isinstance(parent_1, ObjectType)\n        and isinstance(parent_2, ObjectType)", "        and isinstance(parent_1, ObjectType)\n        and isinstance(parent_1, ObjectType)"),
 ]
 
